@@ -26,6 +26,8 @@ const (
 	eAddAsKeyed   // AddSingleton(S3 ctor, As[I0], Name("k1"))
 	eRemoveI0     // Remove[I0]  (an interface type parameter)
 	eRemoveKeyedI // RemoveKeyed[I0]("k1")
+	eFailOpts     // a registration rejected for its options (Name together with Group)
+	eFailNilOpts  // nil constructor AND invalid options
 	numEntryKinds
 )
 
@@ -53,6 +55,10 @@ func (e entry) option() godi.ModuleOption {
 		return godi.Remove[kit.I0]()
 	case eRemoveKeyedI:
 		return godi.RemoveKeyed[kit.I0]("k1")
+	case eFailOpts:
+		return godi.AddSingleton(kit.TabC[e.slot][0], godi.Name("k1"), godi.Group("g1"))
+	case eFailNilOpts:
+		return godi.AddSingleton(nil, godi.Name("k1"), godi.Group("g1"))
 	}
 	panic("bad entry")
 }
@@ -86,6 +92,10 @@ func (e entry) apply(c godi.Collection) error {
 	case eRemoveKeyedI:
 		c.RemoveKeyed(kit.TypeI0, "k1")
 		return nil
+	case eFailOpts:
+		return c.AddSingleton(kit.TabC[e.slot][0], godi.Name("k1"), godi.Group("g1"))
+	case eFailNilOpts:
+		return c.AddSingleton(nil, godi.Name("k1"), godi.Group("g1"))
 	}
 	panic("bad entry")
 }
@@ -188,7 +198,20 @@ func H_Modules() {
 		// the original cause is still reachable
 		var me godi.ModuleError
 		vrt.Assert(errors.As(err1, &me) == (len(want) > 0), "C20.module_error_as", "errors.As(ModuleError) =", errors.As(err1, &me))
-		if es[failedAt].kind == eFail {
+		// whatever the cause is, it is classified alike through the module wrappers and directly
+		{
+			var r1, r2 *godi.RegistrationError
+			var v1, v2 *godi.ValidationError
+			var a1, a2 *godi.AlreadyRegisteredError
+			same := errors.Is(err1, godi.ErrConstructorNil) == errors.Is(err2, godi.ErrConstructorNil) &&
+				errors.As(err1, &r1) == errors.As(err2, &r2) &&
+				errors.As(err1, &v1) == errors.As(err2, &v2) &&
+				errors.As(err1, &a1) == errors.As(err2, &a2)
+			vrt.Assert(same, "C20.cause_class_differs", "the failure of entry", failedAt, "is classified differently through modules (", err1, ") and directly (", err2, ")")
+		}
+		if k := es[failedAt].kind; k == eFailOpts || k == eFailNilOpts {
+			vrt.Cover("failed_on_options")
+		} else if es[failedAt].kind == eFail {
 			vrt.Assert(errors.Is(err1, godi.ErrConstructorNil), "C20.cause_lost", "original cause not reachable through the module wrappers:", err1)
 		} else if es[failedAt].kind != eAddAs && es[failedAt].kind != eAddAsKeyed || true {
 			var ar *godi.AlreadyRegisteredError
